@@ -196,6 +196,40 @@ def h_two_classes(env):
     env.check("proto-name-maps-back", getattr(o, n2) == v)
 
 
+def h_key_tree(env):
+    """the keys to_dict emits at every level of a message tree (singular, repeated and map-valued sub-messages) are the requested casing of
+    the field names, and the snake_case keys map back to the fields; field names include the ones whose camelCase key loses a word boundary"""
+    import betterproto
+    from betterproto import casing as _casing
+
+    from .. import shapes
+    from ..shapes import F, Catalogue, Shape
+
+    names = ["address_line_1", "x_y_z", "plain", "two_words"]
+    n = Shape("N", [F(nm, i + 1, "int32") for i, nm in enumerate(names)])
+    m = Shape("M", [F("sub_msg", 1, "message", msg="N"), F("rep_msg", 2, "message", "repeated", msg="N"), F("map_msg", 3, "message", "map", key="string", msg="N")])
+    cat = Catalogue("c19-key-tree", [m, n], [])
+    mod = shapes.build_bp(cat)
+
+    def leaf(tag):
+        return mod.N(**{nm: env.int("%s.%s" % (tag, nm), 1, 63) for nm in names})
+
+    msg = mod.M(sub_msg=leaf("s"), rep_msg=[leaf("r")], map_msg={"k": leaf("m")})
+    for cname, cas, fn in (("camel", betterproto.Casing.CAMEL, _casing.camel_case), ("snake", betterproto.Casing.SNAKE, _casing.snake_case)):
+        d = msg.to_dict(casing=cas)
+        top = {fn(x): x for x in ("sub_msg", "rep_msg", "map_msg")}
+        env.check("top-level-keys-in-requested-casing[%s]" % cname, sorted(d) == sorted(top), "%r" % (sorted(d),))
+        if sorted(d) != sorted(top):
+            continue
+        want = sorted(fn(x) for x in names)
+        inv = {v: k for k, v in top.items()}
+        for where, sub in (("singular", d[inv["sub_msg"]]), ("repeated", d[inv["rep_msg"]][0]), ("map-value", d[inv["map_msg"]]["k"])):
+            env.check("nested-keys-in-requested-casing[%s]" % cname, sorted(sub) == want, "%s: %r" % (where, sorted(sub)))
+        if cname == "snake":
+            back = mod.M().from_dict(d)
+            env.check("snake_case-keys-map-back-at-every-level", sym.sym_and(back == msg, bytes(back) == bytes(msg)))
+
+
 def units(tier):
     u = []
     top = 4 if tier == "quick" else 6
@@ -208,6 +242,7 @@ def units(tier):
             u.append(("enum-member-names[enum=%d member=%d]" % (e, n), h_enum_member_names, {"e": e, "n": n}))
     u.append(("corpus", h_corpus, {}))
     u.append(("two-classes-with-similar-field-names", h_two_classes, {}))
+    u.append(("keys-at-every-level-of-a-message-tree", h_key_tree, {}))
     return u
 
 
